@@ -92,6 +92,61 @@ func MemPrMp(v map[string]int) int {
 	return -1
 }
 
+// Kinds that Go compares with == but that derived Equal compares structurally (through the pointers).
+type SP struct{ P *St }
+
+func MemMkAp(k, rep int) [2]*St { return [2]*St{{7, strtok(k)}, {7, strtok(k)}} }
+func MemMkSp(k, rep int) SP     { return SP{&St{7, strtok(k)}} }
+func MemMkAsp(k, rep int) [2]SP { return [2]SP{{&St{7, strtok(k)}}, {&St{7, strtok(k)}}} }
+func MemPrAp(v [2]*St) int {
+	if a, b := MemPrPt(v[0]), MemPrPt(v[1]); a == b {
+		return a
+	}
+	return -1
+}
+func MemPrSp(v SP) int { return MemPrPt(v.P) }
+func MemPrAsp(v [2]SP) int {
+	if a, b := MemPrPt(v[0].P), MemPrPt(v[1].P); a == b {
+		return a
+	}
+	return -1
+}
+
+// ---- exotic kinds: a struct type whose tag contains printf verbs, a type with a non-ASCII name, a func value
+type Tg = struct {
+	A int ` + "`layout:\"%5d %s %%\"`" + `
+}
+type Ünï int
+
+func MkTg(k int) Tg   { return Tg{A: k} }
+func PrTg(v Tg) int   { return v.A }
+func MkUni(k int) Ünï { return Ünï(k) }
+func PrUni(v Ünï) int { return int(v) }
+
+var fnPool [poolN]func(int) int
+
+func init() {
+	for k := 1; k < poolN; k++ {
+		kk := k
+		fnPool[k] = func(x int) int { return x + kk }
+	}
+}
+func MkFn(k int) func(int) int {
+	if k == 0 {
+		return nil
+	}
+	return fnPool[k]
+}
+func PrFn(v func(int) int) int {
+	if v == nil {
+		return 0
+	}
+	if k := v(0); k > 0 && k < poolN && v(5) == k+5 {
+		return k
+	}
+	return -1
+}
+
 // Integer-valued non-comparable kinds: classes 1 and 2 collide under goderive's 17/31 hash
 // ([]int{1, 0} and []int{0, 31} both hash to 17*31*31 + 31), class 3 does not.
 type P2 struct{ A, B int }
